@@ -3,6 +3,7 @@ package mslx
 import (
 	"fmt"
 	"strings"
+	"sync"
 
 	"verif/internal/xrt"
 )
@@ -27,6 +28,8 @@ type scope struct {
 	parent *scope
 	syms   map[string]*symbol
 }
+
+var tokPool sync.Pool
 
 type parser struct {
 	toks      []token
@@ -66,10 +69,19 @@ func Parse(src string) (prog *Program, err error) {
 			}
 		}
 	}()
-	toks, lerr := lex(src)
+	var buf []token
+	if b, ok := tokPool.Get().(*[]token); ok && b != nil {
+		buf = *b
+	}
+	toks, lerr := lex(src, buf)
 	if lerr != nil {
 		return nil, lerr
 	}
+	defer func() {
+		// the token array is only needed while parsing
+		t := toks[:0]
+		tokPool.Put(&t)
+	}()
 	p := &parser{toks: toks, record: true}
 	p.prog = &Program{structs: map[string]*Type{}, usedUnqual: map[string]bool{}, usingNames: map[string]bool{}}
 	p.global = &scope{id: 0, syms: map[string]*symbol{}}
@@ -554,7 +566,6 @@ func (p *parser) isMetalTypeName(n int) bool {
 
 // parseTypeSpec parses qualifiers and a type name (no declarator).
 func (p *parser) parseTypeSpec() (t *Type, sp Space, isConst bool) {
-	line := p.line()
 	for {
 		tk := p.peek()
 		if tk.kind != tkIdent {
@@ -659,7 +670,6 @@ func (p *parser) parseTypeSpec() (t *Type, sp Space, isConst bool) {
 		}
 		p.pos++
 	}
-	_ = line
 	return t, sp, isConst
 }
 
@@ -752,18 +762,13 @@ func (p *parser) parseTemplate() {
 
 // parseFunctionOrGlobal handles `[attrs] [stage] type name (params) {body}` and
 // `constant type name = init;`.
-func (p *parser) parseFunctionOrGlobal() {
-	if f := p.parseFunctionHeader(nil); f != nil {
-		return
-	}
-}
+func (p *parser) parseFunctionOrGlobal() { p.parseFunctionHeader(nil) }
 
 // parseFunctionHeader parses a function definition (or, when it turns out to be one, a global
 // variable). For templates (tm != nil) only the signature is parsed and the body skipped.
 func (p *parser) parseFunctionHeader(tm *template) *Func {
 	start := p.pos
-	attrs := p.parseAttrs()
-	_ = attrs
+	p.parseAttrs()
 	stage := ""
 	if t := p.peek(); t.kind == tkIdent {
 		switch t.text {
@@ -806,11 +811,9 @@ func (p *parser) parseFunctionHeader(tm *template) *Func {
 		tm.scopeID = p.cur.id
 	}
 	// parameters
-	fsc := p.cur
 	if tm == nil {
-		fsc = p.pushScope()
+		p.pushScope()
 	}
-	_ = fsc
 	saveFn := p.fn
 	p.fn = f
 	func() {
@@ -864,9 +867,7 @@ func (p *parser) parseFunctionHeader(tm *template) *Func {
 	}
 	cur := p.cur
 	p.cur = encl
-	if tm == nil || !tmAlreadyDeclared(encl, f) {
-		p.declareFunc(f)
-	}
+	p.declareFunc(f)
 	p.cur = cur
 	p.prog.funcs = append(p.prog.funcs, f)
 	if stage == "kernel" && tm == nil {
@@ -886,8 +887,6 @@ func (p *parser) parseFunctionHeader(tm *template) *Func {
 	p.fn = saveFn
 	return f
 }
-
-func tmAlreadyDeclared(sc *scope, f *Func) bool { return false }
 
 // parseBodyProtected parses `{ ... }` of f; an *xrt.Unsupported inside marks the function
 // unsupported and skips the body.
@@ -1067,13 +1066,12 @@ func (p *parser) instantiate(tf *Func, arg *Type, line int) *Func {
 	p.instDepth++
 	p.pos = tm.bodyStart
 	p.cur = p.global
+	p.forceID = tm.scopeID // the instantiation's declarations belong to the template's scope
 	p.pushScope()
 	p.cur.syms[tm.param] = &symbol{kind: symType, t: arg}
 	p.record = false
 	p.fn = nil
 
-	attrsStart := p.pos
-	_ = attrsStart
 	p.parseAttrs()
 	rt, _, _ := p.parseTypeSpec()
 	name := p.ident()
